@@ -534,12 +534,16 @@ package forwarder
 //@     reached [emit] when x.Type == ie.OuterHeaderCreation && ok(x.OuterHeaderCreation())
 //@     assert [desc] len(arg1) == 1 && arg1[0].Type == gtp5gnl.OUTER_HEADER_CREATION_DESCRIPTION && arg1[0].Value == iface(nl.AttrU16(v.OuterHeaderCreationDescription))
 //@   at call append~OUTER_HEADER_CREATION_O_TEID:
+//@     reached [emit] when x.Type == ie.OuterHeaderCreation && ok(x.OuterHeaderCreation()) && x.HasTEID()
 //@     assert [teid] len(arg1) == 1 && arg1[0].Type == gtp5gnl.OUTER_HEADER_CREATION_O_TEID && arg1[0].Value == iface(nl.AttrU32(v.TEID))
 //@   at call append~OUTER_HEADER_CREATION_PORT#1:
+//@     reached [emit] when x.Type == ie.OuterHeaderCreation && ok(x.OuterHeaderCreation()) && x.HasTEID()
 //@     assert [gtpport] len(arg1) == 1 && arg1[0].Type == gtp5gnl.OUTER_HEADER_CREATION_PORT && arg1[0].Value == iface(nl.AttrU16(2152))
 //@   at call append~OUTER_HEADER_CREATION_PORT#2:
+//@     reached [emit] when x.Type == ie.OuterHeaderCreation && ok(x.OuterHeaderCreation()) && !x.HasTEID()
 //@     assert [port] len(arg1) == 1 && arg1[0].Type == gtp5gnl.OUTER_HEADER_CREATION_PORT && arg1[0].Value == iface(nl.AttrU16(v.PortNumber))
 //@   at call append~OUTER_HEADER_CREATION_PEER_ADDR_IPV4:
+//@     reached [emit] when x.Type == ie.OuterHeaderCreation && ok(x.OuterHeaderCreation()) && x.HasIPv4()
 //@     assert [peer] len(arg1) == 1 && arg1[0].Type == gtp5gnl.OUTER_HEADER_CREATION_PEER_ADDR_IPV4 && arg1[0].Value == iface(nl.AttrBytes(v.IPv4Address))
 //@   at call append~FORWARDING_PARAMETER_OUTER_HEADER_CREATION:
 //@     reached [emit] when x.Type == ie.OuterHeaderCreation && ok(x.OuterHeaderCreation())
